@@ -73,12 +73,28 @@ func evalSystem(cs Case) (*core.Fail, bool) {
 	}
 	keep := map[string]bool{}
 	nIndex := 0
+	// the index modules of the program, by the directory (module hash) of their files
+	idxDirs := map[string]bool{}
+	for _, f := range sysrun.ListFiles(base) {
+		if strings.Contains(f, "/index/") {
+			idxDirs[strings.SplitN(f, "/index/", 2)[0]] = true
+		}
+	}
+	var dirs []string
+	for d := range idxDirs {
+		dirs = append(dirs, d)
+	}
+	sort.Strings(dirs)
 	for _, f := range sysrun.ListFiles(base) {
 		isIdx := strings.Contains(f, "/index/")
 		if isIdx {
 			nIndex++
 		}
 		switch cs.System {
+		case "index-first": // only the index files of one of several index modules
+			keep[f] = isIdx && len(dirs) > 0 && strings.HasPrefix(f, dirs[0]+"/")
+		case "index-second":
+			keep[f] = isIdx && len(dirs) > 1 && strings.HasPrefix(f, dirs[1]+"/")
 		case "index":
 			keep[f] = isIdx
 		case "all":
@@ -308,7 +324,11 @@ func Run(ctx *core.Ctx) int {
 		for _, seg := range []uint64{3, 4, 6} {
 			for _, se := range [][2]uint64{{1, 2*seg + 1}, {seg + 1, 3 * seg}, {0, seg}} {
 				for _, prog := range []string{"", "index2"} {
-					for _, keepMode := range []string{"none", "index", "all", "all-but-index"} {
+					modes := []string{"none", "index", "all", "all-but-index"}
+					if prog == "index2" {
+						modes = append(modes, "index-first", "index-second")
+					}
+					for _, keepMode := range modes {
 						if !emit(Case{Prog: prog, System: keepMode, Seg: seg, Start: se[0], Stop: se[1]}) {
 							return
 						}
@@ -336,7 +356,7 @@ func Run(ctx *core.Ctx) int {
 	ctx.Cov["expressions_accepted_by_parser"] = accepted
 	ctx.Cov["exhaustive"] = true
 	ctx.Cov["rule"] = fmt.Sprintf("every expression string with <=%d leaves over keys {a,b,c}, operators ' && ', ' || ', juxtaposition and parentheses at any nesting (%d strings) x every assignment of key subsets to the 3 blocks of a segment (8^3); every <=2-leaf expression over bare/single-/double-quoted keys and a key with a space x 16^3 assignments; 15 rejected shapes (judged only if the parser accepts them); a slice with a key absent from the index and through index.File save+load on a local zstd dstore. Oracle: RoaringBitmapsApply(expr,index).Contains(b) == KeysApply(expr, keys(b)); BlockIndex.Skip == SkipFromKeys; a block without keys is never selected; a second evaluation gives the same bitmap and leaves the index bitmaps untouched. Non-trivial: >=2 distinct keys and the filter separates the blocks; every whole-system case.", maxLeaves, len(structural))
-	ctx.Assume = []string{"whole-system half: the index program (index module, map filtered by 'even && three', store filtered by 'three || mod5-1') and the index2 program (two index modules built by the same job that share a key name on different blocks, maps and a store filtered on it) served in production mode on {empty cache: index built in the request, only the index files of a previous run, all files, all files but the index}; streams compared with each other and with the reference interpreter evaluating the filter on each block's own keys"}
+	ctx.Assume = []string{"whole-system half: the index program (index module, map filtered by 'even && three', store filtered by 'three || mod5-1') and the index2 program (two index modules built by the same job that share a key name on different blocks, maps and a store filtered on it) served in production mode on {empty cache: index built in the request, only the index files of a previous run, all files, all files but the index, only the index files of one of two index modules}; streams compared with each other and with the reference interpreter evaluating the filter on each block's own keys"}
 	defer sysrun.CleanupAll()
 	return ctx.Finish(core.JSONRecheck(ctx.Prop, Eval))
 }
